@@ -180,6 +180,7 @@ func checkMain(args []string) int {
 			assumptions["warning: "+w] = true
 		}
 		for _, ob := range u.fc.obls {
+			replayFc[ob] = u.fc // replay_run.go needs the verification context of a failed obligation
 			tagged := false
 			for _, p := range ob.Props {
 				if p == prop {
@@ -350,7 +351,7 @@ func writeReplay(path, prop string, ob *Obligation, eng *Engine, repo, verif str
 		"solver_output": truncate(r.Raw, 20000),
 	}
 	reproduced := false
-	if r.Verdict == "sat" && r.Model != "" {
+	if (r.Verdict == "sat" && r.Model != "") || replayCandidate(ob) {
 		rec["model"] = truncate(r.Model, 20000)
 		ok, detail := tryReplay(eng, ob, r.Model, repo, verif)
 		rec["replay"] = detail
@@ -385,9 +386,9 @@ func replayMain(prop, path, repo, verif string) int {
 	if t, ok := rec["replay"].(map[string]any); ok {
 		if src, ok := t["test_source"].(string); ok {
 			pkg, _ := t["package"].(string)
-			okRun, out := runOverlayTest(repo, pkg, src, "TestGovcReplay")
+			failedRun, out := runReplayTest(repo, pkg, src)
 			fmt.Println(out)
-			if okRun {
+			if !failedRun {
 				fmt.Println("replay: the real code no longer fails on this input")
 				return 0
 			}
